@@ -931,13 +931,34 @@ class ResolveInitialEvidence(Contract):
 
 NAMES_MODEL = ['a', 'b']          # order of the parameters in the ElfiModel / in a batch
 NAMES_GP = ['b', 'a']             # target_model.parameter_names: the column order of the surrogate (deliberately different)
+# the batch-dict / evidence bookkeeping contracts are per CONCRETE number of parameters (dict keys are concrete strings); families proved:
+NAME_FAMILIES = {1: (['a'], ['a']), 2: (['a', 'b'], ['b', 'a']), 3: (['a', 'b', 'c'], ['c', 'a', 'b']), 4: (['a', 'b', 'c', 'd2'], ['b', 'd2', 'a', 'c'])}
+
+
+def _use_names(c):
+    """select the parameter-name family of contract `c` (module globals: every helper below reads them); called first thing in setup()"""
+    global NAMES_MODEL, NAMES_GP
+    NAMES_MODEL, NAMES_GP = (list(x) for x in NAME_FAMILIES[getattr(c, 'npar', 2)])
+    return len(NAMES_GP)
+
+
+class _NPar:
+    """mixin: contract instances per number of parameters"""
+    npar = 2
+
+    def with_npar(self, k):
+        self.npar = k
+        if k != 2:
+            self.label = ((getattr(self, 'label', '') or '') + ',%d-parameters' % k).lstrip(',')
+        return self
 
 
 class GPStub:
     """the surrogate (GPyRegression) seen from BayesianOptimization.  Assumed callee contract (C10, gpy_regression.update):
     X' = X ++ x, Y' = Y ++ y, n_evidence' = n_evidence + len(x); needs x with one column per parameter and len(x) == len(y)."""
 
-    def __init__(self, vc, N, names=NAMES_GP):
+    def __init__(self, vc, N, names=None):
+        names = NAMES_GP if names is None else names
         self.parameter_names = list(names)
         self.input_dim = len(names)
         self.N0 = N
@@ -987,7 +1008,7 @@ def bo_env(vc):
                 np=np_module(), super=lambda cls, obj: obj._vc_super(), BayesianOptimization=object())
 
 
-class BOInit(Contract):
+class BOInit(_NPar, Contract):
     """BayesianOptimization.__init__: precomputed evidence goes to the surrogate once, columns in the surrogate's parameter order,
     and n_evidence counts exactly it"""
     target = BOLFI + 'BayesianOptimization.__init__'
@@ -999,6 +1020,7 @@ class BOInit(Contract):
         self.label = form
 
     def setup(self, vc):
+        _use_names(self)
         b, ni, npre = z3.Ints('batch_size n_initial_resolved n_precomputed')
         vc.fin_bounds.extend([b, ni, npre])
         s = NS(b=b, ni=ni, npre=npre)
@@ -1049,7 +1071,7 @@ class BOInit(Contract):
         return out
 
 
-class BOUpdate(Contract):
+class BOUpdate(_NPar, Contract):
     """BayesianOptimization.update: n_evidence += batch_size; the surrogate receives exactly the batch's parameters (columns in the
     surrogate's parameter order) and target values, once: X' = X ++ params, Y' = Y ++ target (with C10's update contract)"""
     target = BOLFI + 'BayesianOptimization.update'
@@ -1057,6 +1079,7 @@ class BOUpdate(Contract):
     fin = 4
 
     def setup(self, vc):
+        _use_names(self)
         b, N, last, interval, ni = z3.Ints('batch_size n_evidence last_GP_update update_interval n_initial_evidence')
         vc.fin_bounds.extend([b, N])
         s = NS(b=b, N=N, last=last, interval=interval, ni=ni)
@@ -1184,7 +1207,7 @@ def allowed_fact(async_, t, left, pend):
     return z3.Implies(z3.And(z3.Not(async_), t >= 0, left == 0), pend == 0)
 
 
-class PrepareNewBatch(Contract):
+class PrepareNewBatch(_NPar, Contract):
     """prepare_new_batch: initial-evidence batches come from the prior (None); otherwise the next batch_size rows of the stored
     acquisition, a new acquisition being made only when none is left - and then, if not async, with no batch pending"""
     target = BOLFI + 'BayesianOptimization.prepare_new_batch'
@@ -1193,19 +1216,21 @@ class PrepareNewBatch(Contract):
     fin_range = 10
 
     def setup(self, vc):
+        D = _use_names(self)
         b, bpa, ni, npre = bo_ints(vc)
         i, pend, m = z3.Ints('batch_index num_pending stored_batches')
         vc.fin_bounds.extend([i, pend, m])
-        s = NS(b=b, bpa=bpa, ni=ni, npre=npre, i=i, pend=pend, m=m, async_=z3.Bool('async_acq'), dim=z3.IntVal(2), bounds=Bounds(z3.IntVal(2)))
-        s.stored = SArr.fresh('stored_acq', (m * b, 2), 'real')
+        s = NS(b=b, bpa=bpa, ni=ni, npre=npre, i=i, pend=pend, m=m, async_=z3.Bool('async_acq'), dim=z3.IntVal(D), bounds=Bounds(z3.IntVal(D)))
+        s.D = D
+        s.stored = SArr.fresh('stored_acq', (m * b, D), 'real')
         s.acquired = []
 
         def acquire(n, t=None):
             vc.oblige('call-pre[acquire: with synchronous acquisition no batch is pending]', z3.Or(s.async_, s.pend == 0))
             vc.oblige('call-pre[acquire: asks for batch_size * batches_per_acquisition points at the acquisition index of the batch]',
                       z3.And(T(n) == b * bpa, T(t) == ACQ_INDEX(i)))
-            out = SArr.fresh('acquired', (b * bpa, 2), 'real')      # post of the acquisition rules' contracts: exactly n points, inside the bounds
-            vc.assume(rows_in_bounds(out, b * bpa, 2))
+            out = SArr.fresh('acquired', (b * bpa, D), 'real')      # post of the acquisition rules' contracts: exactly n points, inside the bounds
+            vc.assume(rows_in_bounds(out, b * bpa, D))
             s.acquired.append(out)
             return out
         s.state = dict(acquisition=s.stored)
@@ -1221,7 +1246,7 @@ class PrepareNewBatch(Contract):
 
     def requires(self, s):
         return [s.b >= 1, s.bpa >= 1, s.ni >= 0, s.npre >= 0, s.i >= 0, s.pend >= 0, s.m >= 0,
-                ('stored acquisitions lie inside the bounds (posts of acquire and of this function)', rows_in_bounds(s.stored, s.m * s.b, 2)),
+                ('stored acquisitions lie inside the bounds (posts of acquire and of this function)', rows_in_bounds(s.stored, s.m * s.b, s.D)),
                 ('the batch was allowed by _allow_submit in this state', allowed_fact(s.async_, ACQ_INDEX(s.i), s.m * s.b, s.pend))]
 
     def ensures(self, s, result):
@@ -1239,12 +1264,12 @@ class PrepareNewBatch(Contract):
         return [('a batch is built only after the initial evidence', t >= 0),
                 ('a new acquisition is made exactly when none was left', z3.And(z3.BoolVal(len(s.acquired) <= 1), (s.m == 0) == z3.BoolVal(bool(s.acquired)))),
                 ('the batch holds exactly batch_size points: the first rows of the acquisition, parameter j from column j of the surrogate\'s order',
-                 z3.And([z3.And(result[NAMES_GP[j]].shape[0] == s.b, forall_range(0, s.b, lambda r, j=j: result[NAMES_GP[j]].at(r) == src.at(r, j), 'r')) for j in range(2)])),
+                 z3.And([z3.And(result[NAMES_GP[j]].shape[0] == s.b, forall_range(0, s.b, lambda r, j=j: result[NAMES_GP[j]].at(r) == src.at(r, j), 'r')) for j in range(s.D)])),
                 ('every point of the batch lies inside the bounds',
-                 z3.And([forall_range(0, s.b, lambda r, j=j: inb(result[NAMES_GP[j]].at(r), j), 'r') for j in range(2)])),
+                 z3.And([forall_range(0, s.b, lambda r, j=j: inb(result[NAMES_GP[j]].at(r), j), 'r') for j in range(s.D)])),
                 ('the remaining rows stay stored, in order, a whole number of batches, inside the bounds',
-                 z3.And(rest.shape[0] == (M - 1) * s.b, rest.shape[1] == 2,
-                        forall_range(0, (M - 1) * s.b, lambda r: z3.And([z3.And(rest.at(r, j) == src.at(s.b + r, j), inb(rest.at(r, j), j)) for j in range(2)]), 'r')))]
+                 z3.And(rest.shape[0] == (M - 1) * s.b, rest.shape[1] == s.D,
+                        forall_range(0, (M - 1) * s.b, lambda r: z3.And([z3.And(rest.at(r, j) == src.at(s.b + r, j), inb(rest.at(r, j), j)) for j in range(s.D)]), 'r')))]
 
 
 class World(Sym):
@@ -1315,4 +1340,5 @@ def contracts():
             BaseAcquire(False), BaseAcquire(True), MaxVarAcquire(), UniformAcquire(), ExpIntVarAcquire('grid'), ExpIntVarAcquire('importance'),
             MaxVarEvaluate(1), MaxVarEvaluate(2), RandMaxVarAcquire('metropolis'), RandMaxVarAcquire('nuts'),
             GetAcquisitionIndex(), ResolveInitialEvidence('default'), ResolveInitialEvidence('count'), ResolveInitialEvidence('precomputed'),
-            BOInit('precomputed'), BOInit('count'), BOUpdate(), ShouldOptimize(), NEvidence(), AllowSubmit(), PrepareNewBatch(), Iterate()]
+            BOInit('precomputed'), BOInit('count'), BOUpdate(), ShouldOptimize(), NEvidence(), AllowSubmit(), PrepareNewBatch(), Iterate()] + \
+           [c.with_npar(k) for k in (1, 3, 4) for c in (BOInit('precomputed'), BOInit('count'), BOUpdate(), PrepareNewBatch())]
